@@ -247,16 +247,24 @@ func GenFull(t *rapid.T, o Opts) *hx.Schema {
 	if explicit && rapid.Bool().Draw(t, "customRootNames") {
 		queryName = "RootQ"
 	}
-	if rapid.IntRange(0, 2).Draw(t, "hasMutation") == 0 {
+	// an implicit schema (no schema block) whose other roots are supplied by 'extend schema'
+	extended := !explicit && rapid.IntRange(0, 3).Draw(t, "extendedImplicitSchema") == 0
+	if rapid.IntRange(0, 2).Draw(t, "hasMutation") == 0 || extended {
 		mutName = "Mutation"
 		if explicit && queryName != "Query" {
 			mutName = "RootM"
+		}
+		if extended {
+			mutName = "ExtM"
 		}
 	}
 	if rapid.IntRange(0, 3).Draw(t, "hasSubscription") == 0 {
 		subName = "Subscription"
 		if explicit && queryName != "Query" {
 			subName = "RootS"
+		}
+		if extended {
+			subName = "ExtS"
 		}
 	}
 	roots := []string{queryName}
@@ -455,6 +463,12 @@ func GenFull(t *rapid.T, o Opts) *hx.Schema {
 			s.Roots["subscription"] = subName
 		}
 		s.RootDirs = g.dirUses("SCHEMA", "schemadu")
+	}
+	if extended {
+		s.ExtRoots = map[string]string{"mutation": mutName}
+		if subName != "" {
+			s.ExtRoots["subscription"] = subName
+		}
 	}
 	// shuffle definition order
 	s.Types = rapid.Permutation(s.Types).Draw(t, "typeOrder")
